@@ -73,15 +73,29 @@ class Builder:
             sc = Scope(kw, locs, idx)
             return self.expr(r["body"], sc)
 
+        is_abi = r.get("kind") == "abi"
+        abi_t = {"U": "abi.Uint64", "B": "abi.String"}
         anns = []
         for p in r["params"]:
-            anns.append("%s: %s" % (p[0], "ScratchVar" if p[2] == "ref" else "Expr"))
+            anns.append("%s: %s" % (p[0], "ScratchVar" if p[2] == "ref" else (abi_t[p[1]] if p[2] == "abi" else "Expr")))
+        if is_abi and r["ret"] != "N":
+            anns.append("*")
+            anns.append("output: %s" % abi_t[r["ret"]])
+            pnames = pnames + ["output"]
         src = "def fn(%s) -> Expr:\n    return impl(%s)\n" % (", ".join(anns), ", ".join("%s=%s" % (n, n) for n in pnames))
-        g = {"impl": impl, "ScratchVar": pt.ScratchVar, "Expr": pt.Expr}
+        g = {"impl": impl if not is_abi else (lambda **kw: impl_abi(**kw)), "ScratchVar": pt.ScratchVar, "Expr": pt.Expr, "abi": pt.abi}
+
+        def impl_abi(**kw):
+            out = kw.pop("output", None)
+            body = impl(**kw)
+            return out.set(body) if out is not None else body
+
         exec(compile(src, "<recipe-routine>", "exec", dont_inherit=True), g)  # dont_inherit: no postponed annotations
         fn = g["fn"]
         name = self.name_override.get(idx, r["name"])
         fn.__name__ = "fn_%d" % idx
+        if is_abi:
+            return pt.ABIReturnSubroutine(fn, overriding_name=name)
         return pt.Subroutine(teal_type(pt, r["ret"]), name=name)(fn)
 
     # ------------------------------------------------------------------ helpers
@@ -140,7 +154,8 @@ class Builder:
         if t == "load":
             return self.var(n[1], sc).load()
         if t == "param":
-            return sc.params[n[1]]
+            v = sc.params[n[1]]
+            return v.get() if isinstance(v, pt.abi.BaseType) else v
         if t == "index":
             return self.var(n[1], sc).index()
         if t == "un":
@@ -248,13 +263,25 @@ class Builder:
                 return mv.outputReducer(lambda value, has: pt.If(has, value, d))
             raise RecipeError("maybe how=%r" % how)
         if t in ("call", "callN"):
+            r = self.recipe["routines"][n[1]]
             args = []
-            for a in n[2]:
+            pre = []
+            for p, a in zip(r["params"], n[2]):
                 if isinstance(a, list) and a and a[0] == "ref":
                     args.append(self.var(a[1], sc))
+                elif p[2] == "abi":
+                    tmp = pt.abi.Uint64() if p[1] == "U" else pt.abi.String()
+                    pre.append(tmp.set(E(a)))
+                    args.append(tmp)
                 else:
                     args.append(E(a))
-            return self.routines[n[1]](*args)
+            call = self.routines[n[1]](*args)
+            if r.get("kind") == "abi" and r["ret"] != "N":
+                out = pt.abi.Uint64() if r["ret"] == "U" else pt.abi.String()
+                return pt.Seq(*pre, call.store_into(out), out.get())
+            if pre:
+                return pt.Seq(*pre, call)
+            return call
         if t == "itxn":
             style = n[2] if len(n) > 2 else "setfield"
             B = pt.InnerTxnBuilder
